@@ -697,3 +697,11 @@ PROPS["C04"] = {
                    "too-new-descriptor-accepted-via-multimap-key) are repaired in /repo (891ea3b, 6e4a662) and tracked as fixed."),
 }
 
+
+
+# Drop-in extensions: every lib/props_d/*.py is executed here with PROPS in scope (sorted by name), so
+# that a new regenerated model / property module can be wired in without editing this file.
+import glob as _glob
+import os as _os
+for _f in sorted(_glob.glob(_os.path.join(_os.path.dirname(_os.path.abspath(__file__)), "props_d", "*.py"))):
+    exec(compile(open(_f).read(), _f, "exec"))
